@@ -10,7 +10,15 @@ import (
 	"golang.org/x/tools/go/ssa"
 )
 
+// ChoiceV: one of several values of a non-string type (a struct chosen by a branch); method
+// calls on it are evaluated per option and joined.
+type ChoiceV struct{ Opts []Val }
+
 func (x *Evaluator) evalCall(call *ssa.Call, idx int, e *env, c *evalCtx) Val {
+	return x.evalCallR(call, idx, e, c, nil)
+}
+
+func (x *Evaluator) evalCallR(call *ssa.Call, idx int, e *env, c *evalCtx, recvOv Val) Val {
 	cc := call.Call
 	if b, ok := cc.Value.(*ssa.Builtin); ok {
 		return x.evalBuiltin(b, call, e, c)
@@ -39,6 +47,15 @@ func (x *Evaluator) evalCall(call *ssa.Call, idx int, e *env, c *evalCtx) Val {
 	if callee == nil {
 		return x.symbolic(resultType(call, idx), "dyncall")
 	}
+	if recvOv == nil && callee.Signature.Recv() != nil && len(cc.Args) > 0 && !isErrorType(resultType(call, idx)) {
+		if ch, ok := x.evalC(cc.Args[0], e, c).(ChoiceV); ok {
+			var outs []Val
+			for _, o := range ch.Opts {
+				outs = append(outs, x.evalCallR(call, idx, e, c, o))
+			}
+			return joinChoice(outs)
+		}
+	}
 	if isErrorType(resultType(call, idx)) {
 		return OpaqueV{"error"} // error values carry no template; never inline for them
 	}
@@ -50,7 +67,11 @@ func (x *Evaluator) evalCall(call *ssa.Call, idx int, e *env, c *evalCtx) Val {
 	}
 	// accessor on an opaque receiver (struct handed in from outside): keep a path
 	if callee.Signature.Recv() != nil && len(cc.Args) > 0 {
-		if o, ok := x.evalC(cc.Args[0], e, c).(OpaqueV); ok && o.Origin != "recv" && isAccessor(callee) {
+		rv := recvOv
+		if rv == nil {
+			rv = x.evalC(cc.Args[0], e, c)
+		}
+		if o, ok := rv.(OpaqueV); ok && o.Origin != "recv" && isAccessor(callee) {
 			return x.symbolic(resultType(call, idx), o.Origin+"."+callee.Name()+"()")
 		}
 	}
@@ -65,7 +86,9 @@ func (x *Evaluator) evalCall(call *ssa.Call, idx int, e *env, c *evalCtx) Val {
 		return x.symbolic(resultType(call, idx), origin)
 	}
 	x.curCall = call
+	x.recvOv = recvOv
 	ne := x.bindCall(callee, cc.Args, e, c, clos, closEnv)
+	x.recvOv = nil
 	x.curCall = nil
 	ne.opaqueResult = e.opaqueResult
 	return x.summarise(ne, idx)
@@ -125,6 +148,10 @@ func (x *Evaluator) bindCall(callee *ssa.Function, args []ssa.Value, e *env, c *
 			break
 		}
 		v := x.evalC(args[i], e, c)
+		if i == 0 && x.recvOv != nil {
+			v = x.recvOv
+			x.recvOv = nil
+		}
 		if l, ok := v.(ListV); ok && l.IsFinite && l.ID == 0 {
 			x.nextList++
 			l.ID = x.nextList
@@ -244,6 +271,33 @@ func (x *Evaluator) summarise(ne *env, idx int) Val {
 		return ListV{Elem: joinVals(elems), Origin: "ret:" + ne.fn.Name()}
 	}
 	return vals[0]
+}
+
+// joinChoice: the results of a call evaluated once per option of its receiver.
+func joinChoice(vs []Val) Val {
+	if len(vs) == 0 {
+		return OpaqueV{"choice"}
+	}
+	allStr, same := true, true
+	for _, v := range vs {
+		if _, ok := v.(StrV); !ok {
+			allStr = false
+		}
+		if fmt.Sprint(v) != fmt.Sprint(vs[0]) {
+			same = false
+		}
+	}
+	if same {
+		return vs[0]
+	}
+	if allStr {
+		var ts []Tmpl
+		for _, v := range vs {
+			ts = append(ts, asTmpl(v))
+		}
+		return strV(mkAlt("choice", ts...))
+	}
+	return ChoiceV{Opts: vs}
 }
 
 // pathCond: the single undecided condition under which blk is reached and other is not:
